@@ -10,7 +10,7 @@ from __future__ import annotations
 import bisect
 
 from . import gen, reader
-from .model import PathError, parse_npath, value_of_text
+from .model import PathError, PathUnspecified, parse_npath, value_of_text
 
 
 class Edit:
@@ -77,7 +77,7 @@ def locate(st) -> Edit:
     ends = [t[2] for t in toks]
     try:
         depth, segs = parse_npath(st.op["path"])
-    except PathError:
+    except (PathError, PathUnspecified):
         ed.why = "path"
         return ed
     layers = dec.shape.layers()
